@@ -201,6 +201,10 @@ TreeHandles1 == ("k2" :> [kind |-> "addr", a |-> "a2", owner |-> "a1"]) @@ ("k3"
 \* flat: a1 holds a2 (unit bucket); a3 is a bystander child-less actor held by c2
 FlatActors == ("a2" :> Cfg(1, "restart", 0, FALSE, FALSE, <<<<>>>>, <<Y>>))
 FlatHandles == ("k2" :> [kind |-> "addr", a |-> "a2", owner |-> "a1"]) @@ ("e2" :> [kind |-> "addr", a |-> "a2", owner |-> "c2"])
+\* a bystander a2 whose handler calls a1 through an Addr it holds (C06: actors that were calling the failing one)
+PeerActors == ("a2" :> Cfg(1, "restart", 0, FALSE, FALSE, <<<<>>>>, <<>>))
+PeerHandles == ("p1" :> [kind |-> "addr", a |-> "a1", owner |-> "a2"]) @@ ("e2" :> [kind |-> "addr", a |-> "a2", owner |-> "c2"])
+ScriptsPeer == {<<>>, <<P>>, <<Eff("call_peer", 0, "p1")>>}
 CfgsParent == {Cfg(Unb, st, 0, FALSE, FALSE, <<ss>>, <<Y>>) : st \in {"restart"},
                  ss \in {<<Eff("add_child", 0, "k2")>>, <<Eff("add_child", 0, "k2"), Er>>, <<Y, Eff("add_child", 0, "k2")>>}}
 ScriptsTree == {<<>>, <<Eff("broadcast_unit", 0, "")>>, <<P>>, <<Eff("ctx_stop", 0, "")>>}
